@@ -24,7 +24,11 @@ type batchIn struct {
 	From int    `json:"from"`
 	To   int    `json:"to"`
 	Tier string `json:"tier"`
+	// TimeoutIdx >= 0: after the concurrent histories the child runs sequential timeout history number TimeoutIdx
+	TimeoutIdx int `json:"timeout_idx"`
 }
+
+const timeoutBase = 1 << 24 // replay index of timeout history k is timeoutBase+k
 
 // one request as seen by its client
 type opRec struct {
@@ -50,6 +54,11 @@ type histRec struct {
 	FinalPw  int     `json:"final_pw"`
 	HookHits int64   `json:"hook_hits"`
 	Note     string  `json:"note,omitempty"`
+	// sequential timeout histories
+	Timeout     bool   `json:"timeout,omitempty"`
+	Variant     string `json:"variant,omitempty"`
+	SlackNs     int64  `json:"slack_ns,omitempty"`
+	CtrlFiredNs int64  `json:"ctrl_fired_ns,omitempty"`
 }
 
 type batchOut struct {
@@ -281,9 +290,11 @@ func run(c *lib.Ctx) {
 		"a delay hook (0.1-2 ms, per history) widens ProcWalletSetPasswd and ProcWalletUnLock just before their password checks; the history ends with sequential probes (Lock, Unlock with every pool password). " +
 		"Each history (client-boundary call/return timestamps) is checked by porcupine against the model {unlocked, password}; illegal histories are reduced to one unjustifiable observation plus the successful state-changing requests. " +
 		"non-trivial = >=1 informative observation (unlocked / successful key, seed or sign request) overlapped a state-changing request (Unlock, Lock, SetPasswd incl. failed); " +
-		"fingerprint = order of calls and their results")
+		"fingerprint = order of calls and their results. "+
+		"Timeout stratum: every batch child ends with one SEQUENTIAL history (variants: failed unlock with a larger timeout, failed SetPasswd / ticket-only unlock / reads, second successful unlock with a larger timeout, Timeout=0) observed after T+slack")
 	c.Assume("failed requests and 'locked' observations are always legal in the model (the property only forbids unjustified unlocked behaviour), so they are dropped before checking",
-		"the unlock timeout is not decided by wall clock: a lock by timeout is always allowed by the model; timeouts of 1 s are exercised only as concurrent writers of the lock flag",
+		"concurrent histories: a lock by timeout is always allowed by the porcupine model (lower bound only); the UPPER bound of the unlock window is decided on the sequential timeout stratum: "+
+			"after a successful Unlock(T=1 s) the wallet must be locked once a control timer of the same duration (armed when the unlock returned) has fired plus 3 s slack, unless a later SUCCESSFUL unlock extends the window or Timeout=0",
 		"porcupine timeout or child watchdog => inconclusive",
 		"race reports decide only when both accesses are in <repo>/wallet/")
 	nHist := c.N(150, 5000)
@@ -295,17 +306,22 @@ func run(c *lib.Ctx) {
 	if !c.Quick() {
 		per = 40
 	}
-	type job struct{ from, to int }
+	type job struct{ from, to, timeout int }
 	var jobs []job
 	if c.Replay != "" {
-		jobs = []job{{c.OnlyIdx, c.OnlyIdx + 1}}
+		if c.OnlyIdx >= timeoutBase {
+			jobs = []job{{0, 0, c.OnlyIdx - timeoutBase}}
+		} else {
+			jobs = []job{{c.OnlyIdx, c.OnlyIdx + 1, -1}}
+		}
 	} else {
+		// every batch child ends with one sequential timeout history (quick: 15, thorough: 125)
 		for f := 0; f < nHist; f += per {
 			t := f + per
 			if t > nHist {
 				t = nHist
 			}
-			jobs = append(jobs, job{f, t})
+			jobs = append(jobs, job{f, t, len(jobs)})
 		}
 	}
 	repo := os.Getenv("VERIF_REPO")
@@ -317,7 +333,7 @@ func run(c *lib.Ctx) {
 	raceOther := map[string]int{}
 	lib.Parallel(len(jobs), workers, func(k int) {
 		j := jobs[k]
-		in := batchIn{Seed: c.Seed, From: j.from, To: j.to, Tier: c.Tier}
+		in := batchIn{Seed: c.Seed, From: j.from, To: j.to, Tier: c.Tier, TimeoutIdx: j.timeout}
 		res := c.Child("batch", in, lib.ChildOpts{Race: true, Timeout: 20 * time.Minute})
 		reports := lib.ParseRaceLogs(res.RaceLogs)
 		dec, oth := lib.RaceVerdict(reports, []string{repo + "/wallet/"})
@@ -349,6 +365,9 @@ func run(c *lib.Ctx) {
 			return
 		}
 		for _, h := range out.Hists {
+			if h.Timeout {
+				judgeTimeout(c, h)
+			}
 			judge(c, h)
 		}
 	})
@@ -370,6 +389,78 @@ func run(c *lib.Ctx) {
 	c.RequireEvents("setpasswd_ok", 20)
 	c.RequireEvents("status_during_setpasswd", 50)
 	c.RequireEvents("delay_hook_hits", 50)
+	c.RequireEvents("timeout_histories", 8)
+	c.RequireEvents("timeout_locked_observations", 20)
+	c.RequireEvents("timeout_unlocked_inside_window", 10)
+}
+
+// judgeTimeout applies the UPPER bound of the unlock window to a sequential timeout history: an "unlocked"
+// observation (or a successful key / seed / sign request) called at time t is justified only by a successful
+// wallet unlock u (not ticket-only) with u.call <= t and (u.Timeout == 0 or t <= u.return + u.Timeout + slack)
+// and no successful Lock between u and the observation. Failed requests never justify or extend anything.
+func judgeTimeout(c *lib.Ctx, h histRec) {
+	if h.Note != "" {
+		return // reported by judge
+	}
+	c.Count("timeout_histories", 1)
+	c.Seen("timeout_variants", h.Variant)
+	if lag := h.CtrlFiredNs; lag > 0 {
+		c.Count("timeout_control_timer_fired", 1)
+	}
+	for i, o := range h.Ops {
+		if !isObs(o) || !o.OK {
+			if isObs(o) {
+				c.Count("timeout_locked_observations", 1)
+			}
+			continue
+		}
+		justified, expired := false, false
+		var last *opRec
+		for j := range h.Ops[:i] {
+			u := &h.Ops[j]
+			if u.Kind != "unlock" || !u.OK || u.Ticket {
+				continue
+			}
+			locked := false
+			for _, l := range h.Ops[j+1 : i] {
+				if l.Kind == "lock" && l.OK {
+					locked = true
+				}
+			}
+			if locked {
+				continue
+			}
+			last = u
+			if u.T == 0 || o.Call <= u.Ret+u.T*int64(time.Second)+h.SlackNs {
+				justified = true
+			} else {
+				expired = true
+			}
+		}
+		if justified {
+			c.Count("timeout_unlocked_inside_window", 1)
+			continue
+		}
+		shape := o.Kind + "-unlocked-without-unlock"
+		if expired {
+			shape = o.Kind + "-unlocked-after-timeout"
+		}
+		if o.Kind != "status" {
+			shape = strings.Replace(shape, "-unlocked-", "-succeeded-", 1)
+		}
+		var ws []string
+		for _, x := range h.Ops[:i+1] {
+			ws = append(ws, describe(x))
+		}
+		late := int64(0)
+		if last != nil {
+			late = (o.Call - last.Ret - last.T*int64(time.Second)) / int64(time.Millisecond)
+		}
+		c.Violation(h.Idx, shape, map[string]any{"variant": h.Variant, "history": ws, "slack_ms": h.SlackNs / 1e6, "ms_after_timeout": late, "control_timer_fired_ns": h.CtrlFiredNs},
+			"timeout history %d (%s): %s observed %d ms after the unlock timeout expired (slack %d ms) with no successful unlock in between; history: %s",
+			h.Idx-timeoutBase, h.Variant, describe(o), late, h.SlackNs/1e6, strings.Join(ws, " ; "))
+		return
+	}
 }
 
 func judge(c *lib.Ctx, h histRec) {
